@@ -469,37 +469,37 @@ Proof.
 Qed.
 (* value(p, constness, pop_on_error = true) consumes whatever significant token is current *)
 Lemma C_value_body t value fuel c :
-  (forall c p, spec CMono (value c p)) -> sigtok t -> consumes_at t (g_value_body value fuel c true).
+  (forall c p, spec CMono (value c p)) -> consumes_at t (g_value_body value fuel c true).
 Proof.
-  intros Hv Hs. unfold g_value_body. eapply C_keepv; [apply peek_some|].
+  intros Hv. unfold g_value_body. eapply C_keepv; [apply peek_some|].
   destruct (tok_kind t) eqn:Hk; cbv beta iota;
     try (unfold g_error_or_pop; apply C_err_and_pop);
-    try (apply C_node; [exact Hs|apply C_bump]).
+    try (apply C_node; [eapply sig_of_kind; eauto|apply C_bump]).
   - (* $ *)
     destruct c.
     + apply (C_bind1 t (g_error_or_pop true) (fun _ => g_variable)); [apply C_err_and_pop|].
       intros ?. pose proof CMono_ok as H. gfull.
-    + intros s a s' Hc E. unfold p_bind, p_ret in E. eapply C_variable; eauto.
+    + intros s a s' Hc E. unfold p_bind, p_ret in E. eapply C_variable; eauto. eapply sig_of_kind; eauto.
   - (* [ *)
-    unfold g_list_value_. apply C_node; [exact Hs|].
+    unfold g_list_value_. apply C_node; [eapply sig_of_kind; eauto|].
     apply C_bind1; [apply C_bump|]. intros ?. pose proof CMono_ok as H. gfull.
   - (* { *)
-    unfold g_object_value_. apply C_node; [exact Hs|].
+    unfold g_object_value_. apply C_node; [eapply sig_of_kind; eauto|].
     apply C_bind1; [apply C_bump|]. intros ?. pose proof CMono_ok as H.
     assert (Hf : spec CMono (g_object_field_ value c)) by (apply gg_object_field_; auto). gfull.
   - (* Name *)
     eapply C_keepv; [apply peek_token_some|]. cbv beta iota.
-    destruct (p_str_eqb _ _); [apply C_node; [exact Hs|apply C_bump]|].
-    destruct (p_str_eqb _ _); [apply C_node; [exact Hs|apply C_bump]|].
-    destruct (p_str_eqb _ _); [apply C_node; [exact Hs|apply C_bump]|].
+    destruct (p_str_eqb _ _); [apply C_node; [eapply sig_of_kind; eauto|apply C_bump]|].
+    destruct (p_str_eqb _ _); [apply C_node; [eapply sig_of_kind; eauto|apply C_bump]|].
+    destruct (p_str_eqb _ _); [apply C_node; [eapply sig_of_kind; eauto|apply C_bump]|].
     apply C_enum_value. exact Hk.
 Qed.
 
-Lemma C_value t fuel c : sigtok t -> consumes_at t (g_value fuel c true).
+Lemma C_value t fuel c : consumes_at t (g_value fuel c true).
 Proof.
-  intros Hs. destruct fuel as [|f]; cbn [g_value].
+  destruct fuel as [|f]; cbn [g_value].
   - intros s a s' _ E. discriminate.
-  - apply C_value_body; [|exact Hs]. intros c0 p. apply (gg_value CMono CMono_ok).
+  - apply C_value_body. intros c0 p. apply (gg_value CMono CMono_ok).
 Qed.
 
 (* parse_separated_list's loop body *)
@@ -513,3 +513,164 @@ Proof.
   unfold p_rec_check_and_increment. destruct (ptracker_check_and_increment _) as [[b0 t0]| |]; try discriminate.
   intros [= <- <-]. auto.
 Qed.
+(* ---- the loops terminate *)
+Lemma peek_cur s o s' :
+  p_peek s = POk (o, s') -> match o with Some k => exists t, ps_cur s' = Some t /\ tok_kind t = k | None => True end.
+Proof.
+  unfold p_peek. intros E. apply bind_ok in E as (ot & s1 & E & Er). unfold p_ret in Er. injection Er as <- <-.
+  pose proof (peek_token_mu s) as H. rewrite E in H. destruct H as [_ Hc]. destruct ot as [t|]; cbn; eauto.
+Qed.
+
+Lemma T_peek_while_acc {Acc} (run : Acc -> tkind -> PM (Acc * bool)) :
+  (forall acc t s r s', ps_cur s = Some t -> run acc (tok_kind t) s = POk ((r, true), s') -> (mu s' < mu s)%nat) ->
+  forall fuel n, (n <= fuel)%nat ->
+    (forall m acc k, (m <= n)%nat -> spec (CM m) (run acc k)) ->
+    forall acc, spec (CM n) (p_peek_while_acc fuel run acc).
+Proof.
+  intros Hprog. induction fuel as [|f IH]; intros n Hn Hrun acc s Hs; cbn in Hs.
+  - lia.
+  - cbn [p_peek_while_acc]. unfold p_bind at 1.
+    pose proof (d_peek _ (CM_atoms n) s Hs) as Hp. pose proof (peek_cur s) as Hpc.
+    destruct (p_peek s) as [[o s1]| |]; [|exact Hp|exact Hp]. destruct Hp as [Hi1 Hr1]. cbn in Hi1, Hr1.
+    specialize (Hpc _ _ eq_refl). destruct o as [kind|].
+    2:{ cbn. split; [lia|lia]. }
+    destruct Hpc as (t & Hc1 & Hk). subst kind.
+    unfold p_bind at 1. unfold p_get at 1. cbv iota beta. unfold p_bind at 1.
+    pose proof (Hrun n acc (tok_kind t) (le_n n) s1 Hi1) as Hk. pose proof (Hprog acc t s1) as Hpg.
+    destruct (run acc (tok_kind t) s1) as [[[acc' cont] s2]| |]; [|exact Hk|exact Hk].
+    destruct Hk as [Hi2 Hr2]. cbn in Hi2, Hr2. cbv iota beta.
+    destruct cont.
+    + specialize (Hpg _ _ Hc1 eq_refl). unfold p_bind at 1.
+      pose proof (a_debug _ (CM_atoms n) (ps_cur s1) s2 Hi2) as Hd.
+      destruct (p_debug_assert_advanced (ps_cur s1) s2) as [[u s3]| |]; [|exact Hd|exact Hd].
+      destruct Hd as [Hi3 Hr3]. cbn in Hi3, Hr3.
+      assert (Hn1 : (n - 1 <= f)%nat) by lia.
+      assert (Hs3 : (mu s3 < n - 1)%nat) by lia.
+      specialize (IH (n - 1)%nat Hn1 (fun m a k Hm => Hrun m a k ltac:(lia)) acc' s3 Hs3).
+      destruct (p_peek_while_acc f run acc' s3) as [[a s4]| |]; [|exact IH|exact IH].
+      destruct IH as [Hi4 Hr4]. cbn in *. split; lia.
+    + cbn. split; lia.
+Qed.
+
+Lemma T_peek_while (run : tkind -> PM bool) :
+  (forall t s s', ps_cur s = Some t -> run (tok_kind t) s = POk (true, s') -> (mu s' < mu s)%nat) ->
+  forall fuel n, (n <= fuel)%nat ->
+    (forall m k, (m <= n)%nat -> spec (CM m) (run k)) ->
+    spec (CM n) (p_peek_while fuel run).
+Proof.
+  intros Hprog fuel n Hn Hrun. unfold p_peek_while.
+  eapply post_bind; [apply CM_rel| |intros; apply post_ret_same; apply CM_rel].
+  apply T_peek_while_acc; auto.
+  - intros acc t s r s' Hc E. apply bind_ok in E as (c & s1 & E & Er). unfold p_ret in Er.
+    injection Er as _ Hc' <-. subst c. eapply Hprog; eauto.
+  - intros m acc k Hm. eapply post_bind; [apply CM_rel|apply Hrun; exact Hm|intros; apply post_ret_same; apply CM_rel].
+Qed.
+
+Lemma T_peek_while_kind_acc {Acc} e (run : Acc -> PM Acc) :
+  (forall acc t s r s', ps_cur s = Some t -> tok_kind t = e -> run acc s = POk (r, s') -> (mu s' < mu s)%nat) ->
+  forall fuel n, (n <= fuel)%nat ->
+    (forall m acc, (m <= n)%nat -> spec (CM m) (run acc)) ->
+    forall acc, spec (CM n) (p_peek_while_kind_acc fuel e run acc).
+Proof.
+  intros Hprog. induction fuel as [|f IH]; intros n Hn Hrun acc s Hs; cbn in Hs.
+  - lia.
+  - cbn [p_peek_while_kind_acc]. unfold p_bind at 1.
+    pose proof (d_peek _ (CM_atoms n) s Hs) as Hp. pose proof (peek_cur s) as Hpc.
+    destruct (p_peek s) as [[o s1]| |]; [|exact Hp|exact Hp]. destruct Hp as [Hi1 Hr1]. cbn in Hi1, Hr1.
+    specialize (Hpc _ _ eq_refl). destruct o as [kind|].
+    2:{ cbn. split; lia. }
+    destruct Hpc as (t & Hc1 & Hk). subst kind.
+    destruct (tkind_eqb (tok_kind t) e) eqn:He; cbn [negb].
+    2:{ cbn. split; lia. }
+    apply tkind_eqb_eq in He.
+    unfold p_bind at 1. unfold p_get at 1. cbv iota beta. unfold p_bind at 1.
+    pose proof (Hrun n acc (le_n n) s1 Hi1) as Hk. pose proof (Hprog acc t s1) as Hpg.
+    destruct (run acc s1) as [[acc' s2]| |]; [|exact Hk|exact Hk].
+    destruct Hk as [Hi2 Hr2]. cbn in Hi2, Hr2.
+    specialize (Hpg _ _ Hc1 He eq_refl). unfold p_bind at 1.
+    pose proof (a_debug _ (CM_atoms n) (ps_cur s1) s2 Hi2) as Hd.
+    destruct (p_debug_assert_advanced (ps_cur s1) s2) as [[u s3]| |]; [|exact Hd|exact Hd].
+    destruct Hd as [Hi3 Hr3]. cbn in Hi3, Hr3.
+    assert (Hn1 : (n - 1 <= f)%nat) by lia.
+    assert (Hs3 : (mu s3 < n - 1)%nat) by lia.
+    specialize (IH (n - 1)%nat Hn1 (fun m a Hm => Hrun m a ltac:(lia)) acc' s3 Hs3).
+    destruct (p_peek_while_kind_acc f e run acc' s3) as [[a s4]| |]; [|exact IH|exact IH].
+    destruct IH as [Hi4 Hr4]. cbn in *. split; lia.
+Qed.
+
+Lemma T_peek_while_kind e (run : PM unit) :
+  (forall t, tok_kind t = e -> consumes_at t run) ->
+  forall fuel n, (n <= fuel)%nat -> (forall m, (m <= n)%nat -> spec (CM m) run) ->
+  spec (CM n) (p_peek_while_kind fuel e run).
+Proof.
+  intros Hc fuel n Hn Hrun. unfold p_peek_while_kind. apply T_peek_while_kind_acc; auto.
+  intros acc t s r s' Hcur Hk E. eapply Hc; eauto.
+Qed.
+
+Lemma T_trailing_loop fuel : forall n, (n <= fuel)%nat -> spec (CM n) (p_trailing_loop fuel).
+Proof.
+  induction fuel as [|f IH]; intros n Hn s Hs; cbn in Hs; [lia|].
+  cbn [p_trailing_loop]. unfold p_bind at 1.
+  pose proof (d_peek _ (CM_atoms n) s Hs) as Hp. pose proof (peek_cur s) as Hpc.
+  destruct (p_peek s) as [[o s1]| |]; [|exact Hp|exact Hp]. destruct Hp as [Hi1 Hr1]. cbn in Hi1, Hr1.
+  specialize (Hpc _ _ eq_refl).
+  assert (Hstep : forall t, ps_cur s1 = Some t ->
+            match (p_err_and_pop ;; p_trailing_loop f) s1 with
+            | POk (_, s') => (mu s' < n)%nat /\ (mu s' <= mu s)%nat | PPanic _ => True | POutOfFuel => False end).
+  { intros t Hc1. unfold p_bind.
+    pose proof (d_err_and_pop _ (CM_atoms n) s1 Hi1) as He. pose proof (C_err_and_pop t s1) as Hce.
+    destruct (p_err_and_pop s1) as [[u s2]| |]; [|exact He|exact He]. destruct He as [Hi2 Hr2]. cbn in Hi2, Hr2.
+    specialize (Hce _ _ Hc1 eq_refl).
+    assert (Hs2 : (mu s2 < n - 1)%nat) by lia.
+    specialize (IH (n - 1)%nat ltac:(lia) s2 Hs2).
+    destruct (p_trailing_loop f s2) as [[a s3]| |]; [|exact IH|exact IH]. destruct IH as [Hi3 Hr3]. cbn in *. lia. }
+  destruct o as [k|]; [|cbn; split; lia].
+  destruct Hpc as (t & Hc1 & Hk).
+  destruct k; try (exact (Hstep t Hc1)). cbn. split; lia.
+Qed.
+(* ---- every production terminates: T_X n fuel : n <= fuel -> spec (CM n) (g_X fuel ..) *)
+Create HintDb term discriminated.
+Global Hint Resolve CM_atoms CM_rel : term.
+Global Hint Resolve a_peek_token a_pop a_skip_ignored a_push_ignored a_push_token a_push_syntax_err
+  a_limit_err a_start_raw a_finish_node a_wrap_node a_ghost a_panic a_assert a_debug
+  d_current d_peek d_eat d_bump d_err d_err_at_token d_err_and_pop d_at d_expect d_start_node
+  d_checkpoint_node d_validate_name d_name d_peek_is post_ret_same post_get post_peek_n_inner : term.
+Global Hint Extern 2 ((_ <= _)%nat) => lia : term.
+
+Ltac tknown := solve [ eauto 4 with term ].
+Ltac tstep :=
+  first
+    [ tknown
+    | match goal with
+      | |- post _ _ _ (p_bind _ _) => eapply post_bind; [ apply CM_rel | | intros ]
+      | |- post _ _ _ (p_node _ _) => apply d_node; [ apply CM_atoms | ]
+      | |- post _ _ _ (p_rec_guard _ _ _) => eapply a_rec_guard; [ apply CM_atoms | | | intros ]
+      | |- post _ _ _ (g_if_peek _ _) => unfold g_if_peek
+      | |- post _ _ _ (p_peek_data) => unfold p_peek_data
+      | |- post _ _ _ (p_peek_n _) => unfold p_peek_n
+      | |- post _ _ _ (p_peek_token_n _) => unfold p_peek_token_n
+      | |- post _ _ _ (p_peek_data_n _) => unfold p_peek_data_n, p_peek_token_n
+      | |- post _ _ _ (g_peek_in _) => unfold g_peek_in
+      | |- post _ _ _ (g_peek_data_is _) => unfold g_peek_data_is
+      end
+    | gbranch ].
+Ltac tsolve := repeat tstep.
+
+(* productions without fuel *)
+Lemma T_alias n : spec (CM n) g_alias. Proof. unfold g_alias. tsolve. Qed.
+Lemma T_description n : spec (CM n) g_description. Proof. unfold g_description. tsolve. Qed.
+Lemma T_named_type n : spec (CM n) g_named_type. Proof. unfold g_named_type. tsolve. Qed.
+Lemma T_variable n : spec (CM n) g_variable. Proof. unfold g_variable. tsolve. Qed.
+Lemma T_enum_value n : spec (CM n) g_enum_value. Proof. unfold g_enum_value. tsolve. Qed.
+Lemma T_error_or_pop n b : spec (CM n) (g_error_or_pop b). Proof. unfold g_error_or_pop. tsolve. Qed.
+Lemma T_directive_location n : spec (CM n) g_directive_location. Proof. unfold g_directive_location. tsolve. Qed.
+Lemma T_fragment_name n : spec (CM n) g_fragment_name. Proof. unfold g_fragment_name. tsolve. Qed.
+Global Hint Resolve T_alias T_description T_named_type T_variable T_enum_value T_error_or_pop
+  T_directive_location T_fragment_name : term.
+Lemma T_type_condition n : spec (CM n) g_type_condition. Proof. unfold g_type_condition. tsolve. Qed.
+Lemma T_operation_type n : spec (CM n) g_operation_type. Proof. unfold g_operation_type. tsolve. Qed.
+Lemma T_name_or_err n : spec (CM n) g_name_or_err. Proof. unfold g_name_or_err. tsolve. Qed.
+Global Hint Resolve T_type_condition T_operation_type T_name_or_err : term.
+Lemma T_root_operation_type_definition n : spec (CM n) g_root_operation_type_definition.
+Proof. unfold g_root_operation_type_definition. tsolve. Qed.
+Global Hint Resolve T_root_operation_type_definition : term.
